@@ -18,13 +18,14 @@ def unexplained : List (Access × Access) :=
 /-- Diagnostics only: name the offending pairs / entries in the build log when a theorem below is about to fail. -/
 def diagnostics : List String :=
   ((unexplained.filter (fun p => p.1.write || !p.2.write)).map (fun p => "C18 unsynchronised pair: " ++ describePair p.1 p.2)) ++
-  ((callerHolds.filter (fun e => !callerHoldsOk tables calls e)).map (fun e =>
+  ((allCallerHolds.filter (fun e => !callerHoldsOk tables calls e)).map (fun e =>
     "C18 callerHolds entry no longer justified by the call rows: " ++ nameOf e.fn ++ " under " ++ nameOf e.lock)) ++
   ((calls.filter (reentrant tables acquires)).map (fun c =>
     "C18 re-entrant lock: " ++ nameOf c.caller ++ " calls " ++ nameOf c.callee ++ " (line " ++ toString c.line ++ ") holding a mutex the callee locks again")) ++
   (if callbacks == reviewedCallbacks then [] else
     ["C18 work-manager callbacks changed: extracted [" ++ ", ".intercalate (callbacks.map (fun c => nameOf c.fn ++ (if c.multi then " (multi)" else " (single)"))) ++ "]"]) ++
-  ((knownRacy.filter (fun k => !racyPairs.any (fun p => p.1.field == k.field && p.1.fn == k.fnA && p.2.fn == k.fnB))).map (fun k =>
+  (foreignUnlocks.map (fun u => "C18 " ++ nameOf u.fn ++ " unlocks " ++ nameOf u.lock ++ " without having locked it: its callers' lock regions are opened")) ++
+  ((knownRacy.filter (fun k => !racyPairs.any (fun p => p.1.field == k.field && p.1.fn == k.fnA && (k.anyB || p.2.fn == k.fnB)))).map (fun k =>
     "C18 stale knownRacy entry: " ++ nameOf k.field ++ " " ++ nameOf k.fnA ++ " | " ++ nameOf k.fnB))
 
 #eval show IO Unit from do
@@ -71,8 +72,12 @@ theorem C18_lockset : ∀ r ∈ rows, ∀ s ∈ rows,
 /-- every recorded pair is a real row pair that shares no lock: no entry is stale, the full statement is false -/
 theorem C18_lockset_counterexample :
     knownRacy.all (fun k => ((rowsOf k.field).filter (·.fn == k.fnA)).any (fun r =>
-      ((rowsOf k.field).filter (·.fn == k.fnB)).any (fun s => !pairOk tables r s))) = true := by
+      ((rowsOf k.field).filter (fun s => k.anyB || s.fn == k.fnB)).any (fun s => !pairOk tables r s))) = true := by
   decide +kernel
+
+/-- no function unlocks a mutex it did not lock itself: the lexical lock regions (and the inferred "every caller holds
+the lock" facts) are not silently opened by a callee -/
+theorem C18_no_foreign_unlock : foreignUnlocks.isEmpty = true := by decide +kernel
 
 theorem C18_lockset_statement_false : ¬ C18_lockset_statement := by
   intro h
@@ -100,7 +105,11 @@ theorem C18_ordered_used :
   decide +kernel
 
 /-- the "only called with the lock held" claims of the ownership table agree with every extracted call -/
-theorem C18_caller_holds : callerHolds.all (callerHoldsOk tables calls) = true := by decide +kernel
+theorem C18_caller_holds : allCallerHolds.all (callerHoldsOk tables calls) = true := by decide +kernel
+
+/-- the reviewed table only holds what the extractor could not infer (no entry duplicates an inferred one) -/
+theorem C18_caller_holds_minimal :
+    callerHolds.all (fun e => !inferredHolds.any (fun h => h.fn == e.fn && h.lock == e.lock)) = true := by decide +kernel
 
 /-- every owner / alias entry names a function / lock that occurs in the extracted table, and every tracked field
 has at least one row -/
